@@ -334,6 +334,16 @@ def generate(ctx):
     for tokens, actual in ((["gzip"], ["gzip"]), (["gzip", "gzip"], ["gzip", "gzip"])):
         for cfg in (dict(big, tstep=30000), dict(big, tstep=1, tlimit=3), dict(big, tstep=2000000), dict(big, tstep=60000, tlimit=100000)):
             add_cases(cases, metas, ctx, "clock", p, tokens, actual, cfg, framings=("cl",), single_cut_limit=0, n_random=2, one_byte_limit=0)
+    # 6b. ... with ONE data call that produces more than 256 output blocks, so that the clock is also read at the checkpoint inside the call
+    #     (every 256 body callbacks) and the time already accounted for must not be counted again: two steps of real time stay under the limit, three would not
+    long_p = (b"The quick brown fox jumps over the lazy dog. " * 60)[:2500] * (1000 if not ctx.thorough() else 2200)
+    body = enc("gzip", long_p)
+    head, framed = frame(body, "cl", b"gzip", r)
+    for cfg in (dict(big, tstep=40000, tlimit=100000), dict(big, tstep=45000, tlimit=100000)):
+        for cname, chunks in (("bigfirst", [head, framed[:-300], framed[-300:]]), ("bigfirst2", [head + framed[:-7000], framed[-7000:-10], framed[-10:]])):
+            cases.append(mk_case(cfg, chunks))
+            metas.append(Meta(name="clock-long", payload=long_p, tokens=["gzip"], actual=["gzip"], native=True, cfg=dict(cfg),
+                              maxchunk=max(len(x) for x in chunks), framing="cl", chunking=cname, wirebody=body, complete=True))
     return cases, metas
 
 
